@@ -76,14 +76,34 @@ impl Drop for WorkDir {
     }
 }
 
+/// Copy a directory tree. The source may belong to a live (or just stopped)
+/// server whose sqlite side files (-wal, -shm, -journal) come and go: a file
+/// that vanishes between listing and copying makes the whole copy start
+/// again, so the result is always a listing-consistent snapshot.
 pub fn copy_dir(from: &Path, to: &Path) -> std::io::Result<()> {
+    let mut last = None;
+    for attempt in 0..6 {
+        if attempt > 0 {
+            let _ = std::fs::remove_dir_all(to);
+            std::thread::sleep(std::time::Duration::from_millis(100 * attempt));
+        }
+        match copy_dir_once(from, to) {
+            Ok(()) => return Ok(()),
+            Err(e) if e.kind() == std::io::ErrorKind::NotFound && from.is_dir() => last = Some(e),
+            Err(e) => return Err(e),
+        }
+    }
+    Err(last.unwrap())
+}
+
+fn copy_dir_once(from: &Path, to: &Path) -> std::io::Result<()> {
     std::fs::create_dir_all(to)?;
     for e in std::fs::read_dir(from)? {
         let e = e?;
         let ft = e.file_type()?;
         let dst = to.join(e.file_name());
         if ft.is_dir() {
-            copy_dir(&e.path(), &dst)?;
+            copy_dir_once(&e.path(), &dst)?;
         } else if ft.is_file() {
             std::fs::copy(e.path(), &dst)?;
         }
